@@ -119,4 +119,16 @@ META = {
                 "level 1-4 batches of 1-5 forged entries per run are sampled. Ed25519 unforgeability is trusted (symbolic adversary)",
         "technique": "deterministic simulation with a Byzantine member: forgery-catalogue enumeration + simulated replication to an honest real replica",
     },
+    "C01": {
+        "text": "Fault enumeration on envelopes in flight in a three-party session on the real secret store: every single-bit flip, "
+                "pairwise field substitution, cross-group replay, re-attribution by a Byzantine fellow member and payloads forged "
+                "under the sender's genuine message key (which a member can derive) with B's / another / the original / random / "
+                "empty signature. Oracle: the set of (group, device, counter, payload) tuples recorded when SealEnvelope returned; "
+                "every successful open must be exactly such a tuple, alterations inside authenticated regions must fail, every "
+                "authentic envelope must open.",
+        "design_ref": "section 5, C01; appendix B.5",
+        "note": "the bit-flip sweep is a pure-input clause run as a seeded enumeration; the simulation part is the three-party knowledge "
+                "model and attempts on clones of the receiver's durable state; GroupMessageEvent emission is covered by C08",
+        "technique": "deterministic simulation with a Byzantine member: fault-catalogue enumeration on envelopes in flight vs authentic-tuple oracle",
+    },
 }
